@@ -165,8 +165,24 @@ P("C05",
   "Placements that tie with a resting order (same side, same price, clock not advanced): afterwards every active order is still queued in its side index under its "
   "own key, the index holds nothing else, and every view equals the recomputation from the order list.",
   [book("c05_place_bid_limit_tie_m2", "bid limit arriving at the same price and timestamp as a resting bid", role="C05.tied_key_overwrite", covers=["cover.two_fills_then_remainder_rests"], covers_unsat_ok=["cover.two_fills_then_remainder_rests"]),
-   book("c05_place_ask_limit_tie_m2", "ask limit arriving at the same price and timestamp as a resting ask", role="C05.tied_key_overwrite", covers=["cover.two_fills_then_remainder_rests"], covers_unsat_ok=["cover.two_fills_then_remainder_rests"])],
-  outside="ties created by re-queuing modifications and over-full environment steps (to be added), tables > 2 entries")
+   book("c05_place_ask_limit_tie_m2", "ask limit arriving at the same price and timestamp as a resting ask", role="C05.tied_key_overwrite", covers=["cover.two_fills_then_remainder_rests"], covers_unsat_ok=["cover.two_fills_then_remainder_rests"]),
+   book("c06_modify_with_price_m2", "re-queuing modification on a table whose queue times are arbitrary (ties with the clock included) == reference; queued behind every order at its price"),
+   book("c01_admin_m2", "set_time / toggles / reset keep the next queue time after every resting key", timeout=600)],
+  outside="tables > 2 entries; over-full environment steps are covered through the step-loop harnesses of C08 (the loop stamps start+i whatever the step size) plus the tie harnesses here")
+
+P("C07",
+  "Loading a snapshot = the derived field-by-field decode followed by TryFrom<OrderBookState>: for an ARBITRARY valid order table (unplaced, active, partially filled, "
+  "cancelled, rejected orders, trading on or off) the loaded book carries every scalar, every order record with its stored queue key and every trade unchanged, both "
+  "side indexes hold exactly the active orders under those keys (rebuilt == incrementally maintained is re-asserted after every operation kind by C01-C06's "
+  "harnesses, whose pre-states are all built through this very code path, i.e. every one of them is a lock-step continuation of a LOADED book against the reference engine), "
+  "every view equals the recomputation, and the next queue time lies after every resting key.",
+  [book("c07_reload_m2", "try_from on an arbitrary 2-entry table + 1 arbitrary trade record", covers=["cover.two_sided_book", "cover.unplaced_and_active_orders_present"], timeout=600),
+   book("c07_reload_m3", "try_from on an arbitrary 3-entry table", covers=["cover.two_sided_book", "cover.unplaced_and_active_orders_present"], timeout=1200, tiers=("thorough",)),
+   book("c01_place_bid_limit_m2", "continuation of a loaded book: placement == reference engine; side indexes == rebuild"),
+   book("c06_modify_with_price_m2", "continuation of a loaded book: re-pricing modification == reference engine; side indexes == rebuild"),
+   book("c01_cancel_m2", "continuation of a loaded book: cancel == reference; side indexes == rebuild", timeout=600)],
+  bounds="tables of 2 (3 thorough) arbitrary entries, 1 arbitrary trade record, 2 published levels",
+  outside="the JSON TEXT layer (serde_json over byte strings of symbolic length), files, pretty vs compact, truncated files, the derive attributes themselves (a skipped or renamed field is not visible to these harnesses), Market (an array of books decoded by the same per-book path)")
 
 # ----------------------------------------------------------------------------------------------
 # step_sim crate (bourse-de)
@@ -198,7 +214,8 @@ STEP_HARNESSES = [
     de("env_step_loop_b3", "same, batch of 3", covers=LOOP_COV),
     de("env_step_loop_b4", "same, batch of 4", covers=LOOP_COV, tiers=("thorough",)),
     de("env_step_b0_m2", "idle step on an arbitrary book with a non-zero traded-volume counter: counter reset, clock, one faithful record, nothing else", covers=["cover.idle_step_after_trading_step"]),
-    de("env_step_b1_any", "one arbitrary instruction with the REAL process_event, trading symbolic: result == reference engine replay at start+0; records and cache == live book", covers=[]),
+    de("env_step_b1_any_off", "one arbitrary instruction with the REAL process_event, trading off: result == reference engine replay at start+0; records and cache == live book", covers=[]),
+    de("env_step_b1_any", "same with the trading flag symbolic (matching included)", covers=[], tiers=("thorough",), timeout=3000),
     de("env_step_b2_any_off", "two arbitrary instructions with the REAL process_event, trading off, all schedules == plain replay in the induced order", covers=["cover.last_submitted_processed_first"], tiers=("thorough",), timeout=3000),
 ]
 
@@ -220,7 +237,7 @@ PROPS["C10"] = {
     "outside": "tables > 2 entries, LEVELS > 2, MarketEnv submissions (C14 covers MarketEnv::step and the market-level routing)",
     "explanation": "Submission step on an arbitrary environment: a complete observable snapshot (existing orders, trades, every view, clock, flag, counter, cached level-2 data, every recorded series, waiting instructions) is unchanged; exactly one order is appended with status New and the submitted fields iff creation succeeded; the queue grows by exactly the submitted instruction. After a step (idle, one real instruction, 2-3 logged instructions) the cached level-2 snapshot equals the live book's level_2_data() field by field.",
     "stubs": [STUB_LOOP, "std BTreeMap -> verif_map (cfg(kani) only)"],
-    "harnesses": SUBMIT + [STEP_HARNESSES[3], STEP_HARNESSES[4], STEP_HARNESSES[0]],
+    "harnesses": SUBMIT + [STEP_HARNESSES[3], STEP_HARNESSES[4], STEP_HARNESSES[5], STEP_HARNESSES[0]],
 }
 
 PROPS["C11"] = {
@@ -230,7 +247,7 @@ PROPS["C11"] = {
     "outside": "LEVELS > 2, MarketEnv records (C14), more than one step in a row (induction over k is the stated argument)",
     "explanation": "One step from an environment with k arbitrary prior records: every series (touch prices, side volumes, per-level volumes and order counts for each level, per-step traded volume) has k+1 entries, the earlier entries are unchanged, the last entry equals the value read from the live book's own getters after the step (bid series from bid getters, ask from ask, on asymmetric books), and the per-step traded volume equals the sum of the trades stamped within the step.",
     "stubs": [STUB_LOOP, "std BTreeMap -> verif_map (cfg(kani) only)"],
-    "harnesses": [STEP_HARNESSES[3], STEP_HARNESSES[4], STEP_HARNESSES[0], STEP_HARNESSES[1]],
+    "harnesses": [STEP_HARNESSES[3], STEP_HARNESSES[4], STEP_HARNESSES[5], STEP_HARNESSES[0], STEP_HARNESSES[1]],
 }
 
 PROPS["C15"] = {
@@ -296,6 +313,77 @@ PROPS["C19"] = {
                   py("c19_stepenv_level_2_data_array", "StepEnv.level_2_data_array: length 45, element k == documented quantity k"),
                   py("c19_numpyenv_level_1_data", "StepEnvNumpy.level_1_data: length 9, element k == documented quantity k"),
                   py("c19_numpyenv_level_2_data", "StepEnvNumpy.level_2_data: length 45, element k == documented quantity k")],
+}
+
+
+AG_STUBS = ["f64::tanh -> contract model (result in [-1,1], sign preserved, 0 at 0; exactly +-1 for |x| >= 20 in the saturated harnesses): libm tanh is a foreign function Kani cannot execute",
+            "agents::common::place_{buy,sell}_limit_order{,_market} -> submit a limit order of the given side / volume / trader at an arbitrary on-grid price (the kernels themselves are decided by C16's kernel harnesses)",
+            "agents::common::cancel_live_orders{,_market} -> returns no tracked orders (decided by C16's cancel-kernel harnesses)",
+            "Env::place_order / MarketEnv::place_order -> same tick-grid test, submission recorded in a fixed-size log (a Vec whose length depends on the path taken is out of CBMC's reach); decided by C10's submission harnesses"]
+C17_COV_U = ["cover.buys_in_rising_market", "cover.sells_in_falling_market"]
+PROPS["C17"] = {
+    "level": "model_checking",
+    "functions": ["<MomentumAgent as Agent>::update", "<MomentumMarketAgent as MarketAgent>::update", "rand::distributions::Standard for f64 (as compiled)"],
+    "assumptions": DE_ASSUME[:1] + DE_ASSUME[3:] + ["agent state (last price, previous momentum) and parameters set directly, all finite; the observed mid-price is that of an empty book (2^31 - 0.5): the signal M still ranges over every value through the symbolic previous price / momentum"],
+    "bounds": "1-2 traders, decay in {0, 1/4, 1} for the signal-formula harnesses, all finite demand / scale / order-ratio / previous price / previous momentum, ALL generator words",
+    "outside": "more than 2 traders; symbolic decay (equivalence of two 53-bit multiplier circuits); whole mirrored price PATHS (the per-step rule is decided for both signs of M, the composition over steps is the stated induction); libm tanh itself",
+    "explanation": "One update() from arbitrary agent state: the stored signal is M = m(1-decay) + decay(P-p) bit for bit and the observed mid-price is remembered; any submitted order is a buy iff M > 0 and a sell iff M < 0, nothing at M = 0, at most one limit and one market order per trader, configured volume and own trader ids (and asset). At saturated demand (|demand tanh(scale M)|/n >= 1 and order ratio >= 1) every trader submits exactly one market and one limit order, in rising AND in falling markets (the mirror clause), independent of the previously stored momentum.",
+    "stubs": AG_STUBS,
+    "harnesses": [de("c17_momentum_update_n1_decay1", "update, 1 trader, decay 1: signal formula, direction, multiplicity, volume / trader", covers=C17_COV_U, timeout=900),
+                  de("c17_momentum_update_n2_decay_quarter", "update, 2 traders, decay 1/4", covers=C17_COV_U, timeout=1500),
+                  de("c17_momentum_update_n1_decay0", "update, 1 trader, decay 0 (signal = previous momentum)", covers=C17_COV_U, timeout=900, tiers=("thorough",)),
+                  de("c17_momentum_saturated_rising_n2", "saturated demand, rising market, 2 traders: exactly one market + one limit BUY each", covers=["cover.every_trader_acted"], timeout=600),
+                  de("c17_momentum_saturated_falling_n2", "saturated demand, falling market, 2 traders: exactly one market + one limit SELL each", covers=["cover.every_trader_acted"], timeout=600),
+                  de("c17_momentum_saturated_falling_n1", "saturated demand, falling market, 1 trader", covers=["cover.every_trader_acted"], timeout=600, tiers=("thorough",)),
+                  de("c17_momentum_market_saturated_rising_n2", "multi-asset agent, saturated, rising: one market + one limit BUY per trader on its own asset", covers=["cover.every_trader_acted"], timeout=600),
+                  de("c17_momentum_market_saturated_falling_n2", "multi-asset agent, saturated, falling: one market + one limit SELL per trader on its own asset", covers=["cover.every_trader_acted"], timeout=600)],
+}
+
+PROPS["C20"] = {
+    "level": "model_checking",
+    "functions": ["bourse_macros::AgentSet (derive, real expansion compiled by rustc)", "bourse_macros::MarketAgentSet (derive)", "Env::place_order", "MarketEnv::place_order"],
+    "assumptions": DE_ASSUME[:1] + DE_ASSUME[3:] + ["struct shapes are ENUMERATED (1, 2, 3, 4, 8 fields, repeated and mixed member types, a member that is itself a derived set, both derives); inputs (environment, generator words) are symbolic"],
+    "bounds": "shapes with 1, 2, 3, 4, 8 fields and one nested shape per derive; one update() call each; ALL generator words",
+    "outside": "other shapes (5-7 fields, tuple structs, generics, field names that collide with the generated identifiers); the proc-macro itself runs at compile time and is exercised by compiling each shape, not symbolically",
+    "explanation": "For each enumerated shape the derived update() makes exactly one submission per member, in declaration order (trader tag k+1 at position k), hands draw k of the shared generator to member k (so the generator is shared, not cloned or reseeded), runs each member's own update, and is interchangeable with the hand-written sequence of calls on a twin environment.",
+    "stubs": [],
+    "harnesses": [de("c20_agentset_1_2_3", "AgentSet: 1, 2 (mixed types), 3 fields (repeated type) + twin with hand-written calls", covers=["cover.distinct_words"], tests=True, timeout=900, replayable=False),
+                  de("c20_agentset_4_nested", "AgentSet: 4 fields; a member that is itself a derived set", covers=["cover.reached_end"], tests=True, timeout=900, replayable=False),
+                  de("c20_agentset_8", "AgentSet: 8 fields of mixed types", covers=["cover.reached_end"], tests=True, timeout=900, replayable=False),
+                  de("c20_marketagentset_1_3_nested", "MarketAgentSet: 1, 3 fields, nested", covers=["cover.reached_end"], tests=True, timeout=900, replayable=False),
+                  de("c20_marketagentset_8", "MarketAgentSet: 8 fields", covers=["cover.reached_end"], tests=True, timeout=900, replayable=False)],
+}
+
+PROPS["C14"] = {
+    "level": "model_checking",
+    "functions": ["Market::<2,L>::{new,create_order,create_and_place_order,place_order,cancel_order,modify_order,process_event,set_time,enable_trading,disable_trading,reset_trade_vols,get_time}",
+                  "Market::{bid_vols,ask_vols,bid_best_vols,ask_best_vols,bid_best_vol_and_orders,ask_best_vol_and_orders,bid_levels,ask_levels,bid_asks,get_trade_vols,level_2_data}", "MarketEnv::<2,L>::step"] + BOOK_FUNCS[:2],
+    "assumptions": BOOK_ASSUME + DE_ASSUME[:1],
+    "bounds": "2 assets, 2-entry table per asset (+1 created), asset addressed concrete per harness (0 and 1), one market-level operation (8 kinds, trading off) or one admin call; MarketEnv step loop with batches of 2-3 instructions on symbolic assets",
+    "outside": "3-4 assets (indexing code is uniform in ASSETS); market-level operations with trading on (the wrappers do not look at the flag; matching is C01); MarketEnv end-to-end with the real process_event",
+    "explanation": "A Market<2> assembled from two independent arbitrary books: one market-level operation addressed to asset a leaves asset 1-a's complete observable snapshot and side indexes untouched and makes asset a equal to a stand-alone reference book taking the same operation; ids are (asset, per-asset sequence number); every all-asset query (incl. the re-implemented level_2_data) returns [f(book0), f(book1)]; set_time / toggles / reset reach every asset; Market::new gives each asset its own tick size and the shared clock and flag. MarketEnv<2>::step (loop harness): each asset's book receives exactly its own instructions, in the shuffled order, stamped start+i with i the position in the WHOLE batch; per-asset cache, records and per-step volumes.",
+    "stubs": ["Market::process_event -> Market::verif_log_event in the market_env_step_loop_* harnesses only", "std BTreeMap -> verif_map (cfg(kani) only)"],
+    "harnesses": [book("c14_market_op_asset0_off", "one market-level operation on asset 0 (create / create+place / place / cancel / modify / 3 events)", covers=["cover.placed_on_addressed_asset", "cover.cancel_event_routed"]),
+                  book("c14_market_op_asset1_off", "one market-level operation on asset 1", covers=["cover.placed_on_addressed_asset", "cover.cancel_event_routed"]),
+                  book("c14_market_admin", "set_time / toggles / reset_trade_vols reach both assets; Market::new per-asset ticks", covers=["cover.reset_reaches_asset_1"], timeout=900),
+                  de("market_env_step_loop_b2", "MarketEnv<2>::step loop, 2 instructions on symbolic assets", covers=["cover.cross_asset_batch_reordered"], timeout=1500),
+                  de("market_env_step_loop_b3", "MarketEnv<2>::step loop, 3 instructions on symbolic assets", covers=["cover.cross_asset_batch_reordered"], timeout=2400, tiers=("thorough",))],
+}
+
+
+PROPS["C18"] = {
+    "level": "model_checking",
+    "functions": ["bourse::order_book::OrderBook::{set_time,enable_trading,disable_trading,ask_vol,best_ask_vol,best_ask_vol_and_orders,bid_vol,best_bid_vol,best_bid_vol_and_orders,bid_ask,order_status,place_order,cancel_order,modify_order}",
+                  "bourse::step_sim::StepEnv::{time,ask_vol,best_ask_vol,best_ask_vol_and_orders,bid_vol,best_bid_vol,best_bid_vol_and_orders,trade_vol,bid_ask,order_status}", "bourse::types::{cast_order,cast_trade}", "From<Status> for u8", "From<Side> for bool"],
+    "assumptions": PY_ASSUME[1:] + ["pyo3::exceptions::PyValueError::new_err replaced by a path-ending stand-in (reaching pyo3's lazy exception construction is a Kani internal compiler error): the error path of place_order is decided at core level by C12"],
+    "bounds": "wrapper over an arbitrary 2-entry core book (10 published levels as in the Python build), one call per harness, full-width arguments",
+    "outside": "CPython <-> Rust argument extraction (OverflowError), the exception OBJECT (ValueError), get_orders / get_trades list building (their element casts are covered), StepEnv.step / place_order (the forwarded Env calls are C08 / C10), seeding (rand_xoshiro's seed_from_u64), JSON interchange with Python (C07's text layer)",
+    "explanation": "Wrapper object and a bare core object built from the same arbitrary order table: every scalar getter returns the core's value (bid getters from bid data, ask from ask; StepEnv getters from the step snapshot and the core clock / counter), order_status returns the documented code 0..4 for every status, each mutating method (set_time, toggles, cancel, modify, place) leaves the wrapped book equal to a reference driven by the same call with True = bid, and the order / trade tuple casts put the documented field at every position.",
+    "stubs": ["pyo3::exceptions::PyValueError::new_err -> path ends (assume false)"],
+    "harnesses": [py("c18_orderbook_getters", "OrderBook getters and status codes == core", covers=["cover.rejected_order", "cover.asymmetric_book"]),
+                  py("c18_orderbook_operations_off", "OrderBook.set_time / toggles / cancel / modify / place forward unchanged (trading off)", covers=["cover.bid_placed_through_the_wrapper"]),
+                  py("c18_record_casts", "cast_order / cast_trade field positions and encodings", covers=["cover.rejected_ask"]),
+                  py("c18_stepenv_getters", "StepEnv getters and status codes == core / step snapshot", covers=["cover.rejected_order"])],
 }
 
 NOT_APPLICABLE = {
